@@ -21,7 +21,8 @@ TRUSTED_BASE = [
 LEVEL = {}
 ASSUMPTIONS = {}
 EXPLANATION = {}
-NEEDS_RELEASE = {'C01', 'C04', 'C08', 'C09'}      # thorough tier: every 5th case of these also runs on a release build of the runner
+RELEASE_IN_QUICK = {'C01', 'C06'}      # quick tier: a few cases of these run on a release build (behaviour that differs between dev and release: debug_assert!, overflow checks)
+NEEDS_RELEASE = {'C01', 'C04', 'C06', 'C08', 'C09'}      # thorough tier: every 5th case of these also runs on a release build of the runner
 SCENARIOS = {}
 
 
@@ -464,7 +465,7 @@ def scen_C01(ctx):
         lines = ['db d0 db', 'map m0 d0 %s m %s' % (kt, g.params())]
         lines += g.hist(kt, nops, universe=g.rng.choice([3, 8, 20, 60]), big=big)
         lines.append('closeall')
-        pair(ctx, 'hist', i, lines, stats=g.stats, release=(not ctx.quick and i % 5 == 0))
+        pair(ctx, 'hist', i, lines, stats=g.stats, release=((not ctx.quick and i % 5 == 0) or i % 16 == 3))
     parallel(one, range(n_hist))
     parallel(lambda i: cascade_case(ctx, 'C01', i), range(ctx.scale(12, 60)))
     parallel(lambda i: huge_case(ctx, 'C01', i, reopen=False), range(ctx.scale(1, 4)), workers=4)
@@ -995,7 +996,7 @@ def scen_C06(ctx):
         g = G.G(ctx.seed, 'C06', i)
         kt = G.KTS[i % 5]
         lines = structure_history(ctx, g, kt, i)
-        pair(ctx, 'struct', i, lines, stats=g.stats, files_oracle=True, oracle=contents_oracle)
+        pair(ctx, 'struct', i, lines, stats=g.stats, files_oracle=True, oracle=contents_oracle, release=(i % 6 == 2))
     parallel(one, range(ctx.scale(60, 500)))
 
     def cyclic(i):
